@@ -90,6 +90,9 @@ def handle : List String → Option String
         if fragile eps (pre3 mode T csS csD rnd v0 v1 v2) then "?"
         else if csS.valid p then toString ((p.1 * csS.n1 + p.2.1) * csS.n2 + p.2.2) else "-1"
       pure (s!"{csD.n0} {csD.n1} {csD.n2} | " ++ " ".intercalate cells)) rest
+  | "isoshift" :: rest => run (do
+      let csS ← pCS2; let csD ← pCS2; let k0 ← P.int; let k1 ← P.int; P.done
+      pure (showV2s [isoShiftVec csS csD k0 k1])) rest
   | "gp" :: rest => run (do
       -- A(4) b c stretch_factor stretch_off bulge_factor bulge_off center max min, then points
       let a ← P.rep P.rat 4
